@@ -1,253 +1,15 @@
-(** C04, last clause at machine level: "threads blocked on a mutex do not occupy a worker", by
-    composing the two validated models (Compose/ComposeModel.v = product of Sync/SyncModel.v and
-    Machine/MachineModel.v).  Proved for every number of workers / threads / condition variables
-    and every schedule of the product:
-    - both component invariants (MutexProofs.Inv, MachineProofs.Inv) hold, through projection
-      lemmas (a product step is a Sync step or none, and at most three machine moves);
-    - the LINK invariant: a thread suspended inside the Sync object is live and in no place;
-    - consequences: blocked threads occupy no worker / hand / run queue; a Sync step of a
-      thread's own context happens on exactly one worker; PushTop is enabled at Sync push steps
-      (the wake-up inserts exactly once); synchronised steps are never stuck. *)
+(** Instance proofs for the Sync model (C04 / C05 / C09): the four frame facts of the generic
+    interface (Compose/GenericProofs.v), the instantiated product theorems under the names of
+    Properties_Compose.v, and the Sync-specific corollaries that use the invariant of
+    Sync/MutexProofs.v (threads in the mutex queue / a condition queue / a waker's hand are
+    suspended; push steps are always enabled). *)
 From Coq Require Import ZArith List Bool Arith Lia.
-From MT Require Import Lib.Interleave Sync.SyncModel Machine.MachineModel Compose.ComposeModel.
+From MT Require Import Lib.Interleave Sync.SyncModel Machine.MachineModel Compose.GenericModel Compose.Instances
+  Compose.MachineFrame Compose.GenericProofs Compose.ComposeModel.
 From MT Require Sync.MutexProofs Machine.MachineProofs.
 Import ListNotations.
-
-Module MP := MachineProofs.
 Module XP := MutexProofs.
 
-(* ---------------------------------------------------------------------------------------- *)
-(** * Machine: which move can give a place to which thread *)
-
-Definition gains (s : mstate) (w : nat) (m : move) : option nat :=
-  match m with
-  | CreateCF c | CreatePF c => Some c
-  | TakeJoiner j => Some j
-  | PushTop x => Some x
-  | PutBase => match nth_error (cur s) w with Some (Cb t) => Some t | _ => None end
-  | _ => None
-  end.
-
-Ltac occs := unfold places, occ_cur, occ_hand, occ_dq, set_cur, set_hand, set_dq, set_stat in *;
-  cbn [cur hand dq stat b2n] in *.
-
-Lemma b2n_neq a b : a <> b -> b2n (Nat.eqb a b) = 0.
-Proof. intros H. destruct (Nat.eqb_spec a b); [congruence|reflexivity]. Qed.
-
-Lemma parked_spec s x : parked s x = true <-> is_live s x = true /\ places s x = 0.
-Proof.
-  unfold parked. rewrite andb_true_iff, Nat.eqb_eq. tauto.
-Qed.
-
-Lemma is_live_set_cur s w m x : is_live (set_cur s w m) x = is_live s x. Proof. reflexivity. Qed.
-Lemma is_live_set_hand s w m x : is_live (set_hand s w m) x = is_live s x. Proof. reflexivity. Qed.
-Lemma is_live_set_dq s w m x : is_live (set_dq s w m) x = is_live s x. Proof. reflexivity. Qed.
-
-(** a parked thread stays parked under every move that does not give it a place *)
-Lemma mmove_parked s w m s' x :
-  mmove s w m = Some s' -> parked s x = true -> gains s w m <> Some x -> parked s' x = true.
-Proof.
-  intros Hm Hp Hg. apply parked_spec in Hp as [Hl H0]. apply parked_spec.
-  unfold mmove in Hm. unfold gains in Hg.
-  destruct (nth_error (cur s) w) as [cw|] eqn:Ec; [|discriminate].
-  destruct (nth_error (hand s) w) as [hw|] eqn:Eh; [|discriminate].
-  destruct (nth_error (dq s) w) as [qw|] eqn:Eq; [|discriminate].
-  destruct m as [c|c| |v|j| | | |y| | ].
-  - destruct cw as [|p|p]; try discriminate.
-    destruct (is_fresh s c) eqn:Ef; [|discriminate]. injection Hm as <-.
-    assert (Hcx : c <> x) by congruence.
-    pose proof (MP.sumf_upd (w_cur x) (cur s) w (Run c) (Run p) Ec) as Hc.
-    pose proof (MP.sumf_upd (w_q x) (dq s) w (qw ++ [p]) qw Eq) as Hq.
-    rewrite MP.w_q_app, MP.w_q_single in Hq. cbn [w_cur] in Hc. rewrite (b2n_neq c x Hcx) in Hc.
-    split.
-    + rewrite MP.is_live_set_stat. cbn [set_dq set_cur stat]. rewrite (proj2 (Nat.eqb_neq c x) Hcx). exact Hl.
-    + occs. lia.
-  - destruct cw as [|p|p]; try discriminate.
-    destruct (is_fresh s c) eqn:Ef; [|discriminate]. injection Hm as <-.
-    assert (Hcx : c <> x) by congruence.
-    pose proof (MP.sumf_upd (w_q x) (dq s) w (qw ++ [c]) qw Eq) as Hq.
-    rewrite MP.w_q_app, MP.w_q_single in Hq. rewrite (b2n_neq c x Hcx) in Hq.
-    split.
-    + rewrite MP.is_live_set_stat. cbn [set_dq set_cur stat]. rewrite (proj2 (Nat.eqb_neq c x) Hcx). exact Hl.
-    + occs. lia.
-  - assert (exists r y, hw = None /\ split_last qw = Some (r, y) /\ s' = set_hand (set_dq s w r) w (Some y)) as (r & y & -> & Hsp & ->).
-    { destruct cw; try discriminate; destruct hw; try discriminate;
-      destruct (split_last qw) as [[r y]|] eqn:Hsp; try discriminate; injection Hm as <-; eauto. }
-    apply MP.split_last_spec in Hsp. subst qw.
-    pose proof (MP.sumf_upd (w_q x) (dq s) w r (r ++ [y]) Eq) as Hq.
-    pose proof (MP.sumf_upd (w_hand x) (hand s) w (Some y) None Eh) as Hh.
-    rewrite MP.w_q_app, MP.w_q_single in Hq. cbn [w_hand] in Hh.
-    split; [exact Hl|]. occs. lia.
-  - assert (exists r y, hw = None /\ nth_error (dq s) v = Some (y :: r) /\ s' = set_hand (set_dq s v r) w (Some y)) as (r & y & -> & Ev & ->).
-    { destruct cw; try discriminate; destruct hw; try discriminate;
-      destruct (nth_error (dq s) v) as [[|y r]|] eqn:Ev; try discriminate;
-      destruct (Nat.eqb v w); try discriminate; injection Hm as <-; eauto. }
-    pose proof (MP.sumf_upd (w_q x) (dq s) v r (y :: r) Ev) as Hq.
-    pose proof (MP.sumf_upd (w_hand x) (hand s) w (Some y) None Eh) as Hh.
-    rewrite MP.w_q_cons in Hq. cbn [w_hand] in Hh.
-    split; [exact Hl|]. occs. lia.
-  - destruct cw as [|p|p]; try discriminate. destruct hw; try discriminate.
-    destruct (parked s j) eqn:Ep; [|discriminate]. injection Hm as <-.
-    assert (Hjx : j <> x) by congruence.
-    pose proof (MP.sumf_upd (w_hand x) (hand s) w (Some j) None Eh) as Hh. cbn [w_hand] in Hh.
-    rewrite (b2n_neq j x Hjx) in Hh. split; [exact Hl|]. occs. lia.
-  - destruct cw as [|p|p]; try discriminate. injection Hm as <-.
-    pose proof (MP.sumf_upd (w_cur x) (cur s) w (Cb p) (Run p) Ec) as Hc. cbn [w_cur] in Hc.
-    split; [exact Hl|]. occs. lia.
-  - destruct cw as [|p|p]; try discriminate. injection Hm as <-.
-    pose proof (MP.sumf_upd (w_cur x) (cur s) w (Cb p) (Run p) Ec) as Hc. cbn [w_cur] in Hc.
-    assert (Hpx : p <> x).
-    { intros ->. rewrite Nat.eqb_refl in Hc. cbn [b2n] in Hc. occs. lia. }
-    split.
-    + rewrite MP.is_live_set_stat. cbn [set_cur stat]. rewrite (proj2 (Nat.eqb_neq p x) Hpx). exact Hl.
-    + occs. lia.
-  - destruct cw as [|p|p]; try discriminate.
-    destruct (parked s p) eqn:Ep; [|discriminate]. injection Hm as <-.
-    assert (Hpx : p <> x) by congruence.
-    pose proof (MP.sumf_upd (w_q x) (dq s) w (p :: qw) qw Eq) as Hq. rewrite MP.w_q_cons in Hq.
-    rewrite (b2n_neq p x Hpx) in Hq. split; [exact Hl|]. occs. lia.
-  - destruct (parked s y) eqn:Ep; [|discriminate]. injection Hm as <-.
-    assert (Hyx : y <> x) by congruence.
-    pose proof (MP.sumf_upd (w_q x) (dq s) w (qw ++ [y]) qw Eq) as Hq.
-    rewrite MP.w_q_app, MP.w_q_single in Hq. rewrite (b2n_neq y x Hyx) in Hq.
-    split; [exact Hl|]. occs. lia.
-  - destruct cw as [|p|p]; try discriminate.
-    destruct hw as [n|]; injection Hm as <-.
-    + pose proof (MP.sumf_upd (w_cur x) (cur s) w (Run n) (Cb p) Ec) as Hc. cbn [w_cur] in Hc.
-      pose proof (MP.sumf_upd (w_hand x) (hand s) w None (Some n) Eh) as Hh. cbn [w_hand] in Hh.
-      split; [exact Hl|]. occs. lia.
-    + pose proof (MP.sumf_upd (w_cur x) (cur s) w Sched (Cb p) Ec) as Hc. cbn [w_cur] in Hc.
-      split; [exact Hl|]. occs. lia.
-  - destruct cw as [|p|p]; try discriminate. destruct hw as [n|]; try discriminate. injection Hm as <-.
-    pose proof (MP.sumf_upd (w_cur x) (cur s) w (Run n) Sched Ec) as Hc. cbn [w_cur] in Hc.
-    pose proof (MP.sumf_upd (w_hand x) (hand s) w None (Some n) Eh) as Hh. cbn [w_hand] in Hh.
-    split; [exact Hl|]. occs. lia.
-Qed.
-
-Lemma sumf_ge_nth {A} (f : A -> nat) l i a : nth_error l i = Some a -> f a <= MachineModel.sumf f l.
-Proof.
-  revert i; induction l as [|z l IH]; intros [|i] H; cbn in H; try discriminate; cbn [MachineModel.sumf].
-  - injection H as ->. lia.
-  - specialize (IH i H). lia.
-Qed.
-
-Lemma sumf_ge2_nth {A} (f : A -> nat) l i j a b :
-  i <> j -> nth_error l i = Some a -> nth_error l j = Some b -> f a + f b <= MachineModel.sumf f l.
-Proof.
-  revert i j; induction l as [|z l IH]; intros [|i] [|j] Hij Hi Hj; cbn in Hi, Hj; try discriminate;
-    try congruence; cbn [MachineModel.sumf].
-  - injection Hi as ->. pose proof (sumf_ge_nth f l j b Hj). lia.
-  - injection Hj as ->. pose proof (sumf_ge_nth f l i a Hi). lia.
-  - assert (i <> j) by congruence. specialize (IH i j H Hi Hj). lia.
-Qed.
-
-Lemma w_q_in t q : In t q -> 1 <= w_q t q.
-Proof.
-  unfold w_q. induction q as [|y q IH]; cbn [In MachineModel.sumf]; [contradiction|].
-  intros [->|H]; [rewrite Nat.eqb_refl; cbn; lia | specialize (IH H); lia].
-Qed.
-
-(** a thread with no place is current nowhere, in no hand, in no run queue *)
-Lemma no_place_nowhere s x : places s x = 0 ->
-  forall w, nth_error (cur s) w <> Some (Run x) /\ nth_error (hand s) w <> Some (Some x) /\
-            (forall q, nth_error (dq s) w = Some q -> ~ In x q).
-Proof.
-  intros H w. unfold places, occ_cur, occ_hand, occ_dq in H. repeat split.
-  - intros E. pose proof (sumf_ge_nth (w_cur x) _ _ _ E) as G. cbn in G. rewrite Nat.eqb_refl in G. cbn in G. lia.
-  - intros E. pose proof (sumf_ge_nth (w_hand x) _ _ _ E) as G. cbn in G. rewrite Nat.eqb_refl in G. cbn in G. lia.
-  - intros q E Hin. pose proof (sumf_ge_nth (w_q x) _ _ _ E) as G. pose proof (w_q_in x q Hin). lia.
-Qed.
-
-(** a thread that is current on a worker occupies that place only *)
-Lemma current_unique s w t : MP.Inv s -> nth_error (cur s) w = Some (Run t) ->
-  is_live s t = true /\ places s t = 1 /\
-  (forall w', nth_error (cur s) w' = Some (Run t) -> w' = w) /\
-  (forall w', nth_error (hand s) w' <> Some (Some t)) /\
-  (forall w' q, nth_error (dq s) w' = Some q -> ~ In t q).
-Proof.
-  intros I Ec. destruct (I t) as [H1 H0].
-  pose proof (sumf_ge_nth (w_cur t) _ _ _ Ec) as G. cbn in G. rewrite Nat.eqb_refl in G. cbn in G.
-  assert (Hp : places s t = 1) by (unfold places, occ_cur in *; lia).
-  repeat split.
-  - destruct (is_live s t) eqn:E; [reflexivity|]. specialize (H0 eq_refl). lia.
-  - exact Hp.
-  - intros w' Ec'. destruct (Nat.eq_dec w' w) as [E|Hne]; [exact E|exfalso].
-    pose proof (sumf_ge2_nth (w_cur t) _ _ _ _ _ Hne Ec' Ec) as G2. cbn in G2. rewrite Nat.eqb_refl in G2. cbn in G2.
-    unfold places, occ_cur in *. lia.
-  - intros w' E. pose proof (sumf_ge_nth (w_hand t) _ _ _ E) as G2. cbn in G2. rewrite Nat.eqb_refl in G2. cbn in G2.
-    unfold places, occ_cur, occ_hand in *. lia.
-  - intros w' q E Hin. pose proof (sumf_ge_nth (w_q t) _ _ _ E) as G2. pose proof (w_q_in t q Hin).
-    unfold places, occ_cur, occ_dq in *. lia.
-Qed.
-
-(** the three per-worker lists have the same length *)
-Definition Shape (s : mstate) : Prop := length (hand s) = length (cur s) /\ length (dq s) = length (cur s).
-
-Lemma mmove_shape s w m s' : mmove s w m = Some s' -> Shape s -> Shape s'.
-Proof.
-  intros Hm [H1 H2]. unfold mmove in Hm.
-  destruct (nth_error (cur s) w) as [cw|]; [|discriminate].
-  destruct (nth_error (hand s) w) as [hw|]; [|discriminate].
-  destruct (nth_error (dq s) w) as [qw|]; [|discriminate].
-  destruct m; repeat match type of Hm with
-    | context [match ?x with _ => _ end] => destruct x eqn:?
-    end; try discriminate; injection Hm as <-;
-    unfold Shape, set_cur, set_hand, set_dq, set_stat; cbn [cur hand dq stat]; rewrite ?MP.upd_length; split; assumption.
-Qed.
-
-Lemma shape_lookup s w cw : Shape s -> nth_error (cur s) w = Some cw ->
-  exists hw qw, nth_error (hand s) w = Some hw /\ nth_error (dq s) w = Some qw.
-Proof.
-  intros [H1 H2] Ec. assert (Hw : w < length (cur s)) by (apply nth_error_Some; congruence).
-  destruct (nth_error (hand s) w) as [hw|] eqn:Eh; [|apply nth_error_None in Eh; lia].
-  destruct (nth_error (dq s) w) as [qw|] eqn:Eq; [|apply nth_error_None in Eq; lia].
-  eauto.
-Qed.
-
-(** saving the context of the current thread parks it *)
-Lemma save_parks s w t : MP.Inv s -> Shape s -> nth_error (cur s) w = Some (Run t) ->
-  exists s', mmove s w SaveCtx = Some s' /\ parked s' t = true /\ nth_error (cur s') w = Some (Cb t).
-Proof.
-  intros I Sh Ec. destruct (current_unique s w t I Ec) as (Hl & Hp & _).
-  destruct (shape_lookup s w _ Sh Ec) as (hw & qw & Eh & Eq).
-  exists (set_cur s w (Cb t)). split; [unfold mmove; rewrite Ec, Eh, Eq; reflexivity|]. split.
-  - apply parked_spec. split; [exact Hl|].
-    pose proof (MP.sumf_upd (w_cur t) (cur s) w (Cb t) (Run t) Ec) as Hc. cbn [w_cur] in Hc.
-    rewrite Nat.eqb_refl in Hc. cbn [b2n] in Hc. occs. lia.
-  - cbn [set_cur cur]. eapply MP.nth_error_upd_same; eauto.
-Qed.
-
-(** moves that leave [cur] of the worker alone *)
-Lemma mmove_cur_same s w m s' : mmove s w m = Some s' ->
-  match m with PopOwn | Steal _ | TakeJoiner _ | PutBase | PushTop _ | CreatePF _ => True | _ => False end ->
-  cur s' = cur s.
-Proof.
-  intros Hm Hk. unfold mmove in Hm.
-  destruct (nth_error (cur s) w) as [cw|]; [|discriminate].
-  destruct (nth_error (hand s) w) as [hw|]; [|discriminate].
-  destruct (nth_error (dq s) w) as [qw|]; [|discriminate].
-  destruct m; try contradiction; repeat match type of Hm with
-    | context [match ?x with _ => _ end] => destruct x eqn:?
-    end; try discriminate; injection Hm as <-; reflexivity.
-Qed.
-
-Lemma autopop_spec m w m' : autopop m w = Some m' -> m' = m \/ mmove m w PopOwn = Some m'.
-Proof.
-  unfold autopop. destruct (nth_error (hand m) w) as [[x|]|]; try (intros E; injection E as <-; left; reflexivity).
-  destruct (nth_error (dq m) w) as [[|y q]|]; try (intros E; injection E as <-; left; reflexivity).
-  intros E. right. exact E.
-Qed.
-
-Lemma autopop_enabled m w t : nth_error (cur m) w = Some (Run t) -> exists m', autopop m w = Some m'.
-Proof.
-  intros Ec. unfold autopop.
-  destruct (nth_error (hand m) w) as [[x|]|] eqn:Eh; eauto.
-  destruct (nth_error (dq m) w) as [[|y q]|] eqn:Eq; eauto.
-  unfold mmove. rewrite Ec, Eh, Eq. unfold split_last.
-  destruct (rev (y :: q)) as [|z r] eqn:Er.
-  - exfalso. apply (f_equal (@length nat)) in Er. rewrite rev_length in Er. cbn in Er. lia.
-  - eauto.
-Qed.
 (* ---------------------------------------------------------------------------------------- *)
 (** * Sync: what a step does to the suspended status of threads *)
 
@@ -259,16 +21,16 @@ Proof.
   destruct (main thx) eqn:Em; try discriminate. intros H. injection H as <-. eauto.
 Qed.
 
-Lemma susp_at_upd_same s l t th0 th : nth_error l t = Some th0 ->
-  susp_at (set_thr s (SyncModel.upd l t th)) t = match main th with Susp _ => true | _ => false end.
+Lemma susp_upd_same s l t th0 th : nth_error l t = Some th0 ->
+  SyncI.susp (set_thr s (SyncModel.upd l t th)) t = match main th with Susp _ => true | _ => false end.
 Proof.
-  intros H. unfold susp_at, get_thread. cbn [thr set_thr]. rewrite (XP.nth_error_upd_eq _ _ _ _ H). reflexivity.
+  intros H. unfold SyncI.susp, get_thread. cbn [thr set_thr]. rewrite (XP.nth_error_upd_eq _ _ _ _ H). reflexivity.
 Qed.
 
 (** a push step makes its target runnable *)
-Lemma push_wakes s t e s1 x : SyncModel.step s (t, e) = Some s1 -> push_target s t e = Some x -> susp_at s1 x = false.
+Lemma push_wakes s t e s1 x : SyncModel.step s (t, e) = Some s1 -> SyncI.push s t e = Some x -> SyncI.susp s1 x = false.
 Proof.
-  intros H Hp. unfold push_target in Hp. destruct (get_thread s t) as [th|] eqn:Hth; [|discriminate].
+  intros H Hp. unfold SyncI.push in Hp. destruct (get_thread s t) as [th|] eqn:Hth; [|discriminate].
   unfold get_thread in Hth.
   destruct e as [o| |i|v]; try discriminate; cbn [SyncModel.step] in H.
   - (* main context *)
@@ -279,7 +41,7 @@ Proof.
       destruct (wake_spec _ _ _ Hw) as (thx & k & Ex & Emx & ->).
       unfold get_thread in H. cbn [thr set_thread set_thr] in H.
       destruct (nth_error (SyncModel.upd (thr s) x (set_main thx (LockRead k))) t) as [l|] eqn:El; [|discriminate].
-      injection H as <-. unfold susp_at, get_thread. cbn [thr set_thread set_thr].
+      injection H as <-. unfold SyncI.susp, get_thread. cbn [thr set_thread set_thr].
       destruct (Nat.eq_dec t x) as [->|Hne].
       * rewrite (XP.nth_error_upd_eq _ _ _ _ El). reflexivity.
       * rewrite XP.nth_error_upd_neq by exact Hne. rewrite (XP.nth_error_upd_eq _ _ _ _ Ex). reflexivity.
@@ -292,7 +54,7 @@ Proof.
       assert (exists p, s1 = set_thread (set_thread s x (set_main thx (LockRead k0))) t (set_main l p) /\
                         match p with Susp _ => false | _ => true end = true) as (p & -> & Hpp).
       { destruct k; injection H as <-; eexists; split; reflexivity. }
-      unfold susp_at, get_thread. cbn [thr set_thread set_thr].
+      unfold SyncI.susp, get_thread. cbn [thr set_thread set_thr].
       destruct (Nat.eq_dec t x) as [->|Hne].
       * rewrite (XP.nth_error_upd_eq _ _ _ _ El). cbn [main set_main]. destruct p; try reflexivity; discriminate.
       * rewrite XP.nth_error_upd_neq by exact Hne. rewrite (XP.nth_error_upd_eq _ _ _ _ Ex). reflexivity.
@@ -305,7 +67,7 @@ Proof.
     destruct (wake_spec _ _ _ Hw) as (thx & k & Ex & Emx & ->).
     unfold get_thread in H. cbn [thr set_thread set_thr] in H.
     destruct (nth_error (SyncModel.upd (thr s) x (set_main thx (LockRead k))) t) as [l|] eqn:El; [|discriminate].
-    injection H as <-. unfold susp_at, get_thread. cbn [thr set_thread set_thr].
+    injection H as <-. unfold SyncI.susp, get_thread. cbn [thr set_thread set_thr].
     destruct (Nat.eq_dec t x) as [->|Hne].
     + rewrite (XP.nth_error_upd_eq _ _ _ _ El). cbn [main set_cbs].
       rewrite (XP.nth_error_upd_eq _ _ _ _ Ex) in El. injection El as <-. reflexivity.
@@ -313,9 +75,9 @@ Proof.
 Qed.
 
 (** a thread other than the actor does not become suspended by the actor's step *)
-Lemma susp_frame s t e s1 x : SyncModel.step s (t, e) = Some s1 -> x <> t -> susp_at s1 x = true -> susp_at s x = true.
+Lemma susp_frame s t e s1 x : SyncModel.step s (t, e) = Some s1 -> x <> t -> SyncI.susp s1 x = true -> SyncI.susp s x = true.
 Proof.
-  intros H Hx Hs. unfold susp_at in *.
+  intros H Hx Hs. unfold SyncI.susp in *.
   destruct (get_thread s x) as [thx|] eqn:Ex.
   - destruct (XP.step_frame s t e s1 x thx H Hx Ex) as [E|(k & Hm & E)]; rewrite E in Hs.
     + exact Hs.
@@ -333,262 +95,83 @@ Ltac cb_fin t Hth :=
     | rewrite XP.nth_error_upd_neq in E2 by assumption; rewrite Hth in E2; injection E2 as <- ] end.
 
 (** a callback step never suspends its own thread (it can only resume it) *)
-Lemma cb_susp s t i s1 : SyncModel.step s (t, ECbTick i) = Some s1 -> susp_at s1 t = true -> susp_at s t = true.
+Lemma cb_susp s t i s1 : SyncModel.step s (t, ECbTick i) = Some s1 -> SyncI.susp s1 t = true -> SyncI.susp s t = true.
 Proof.
   intros H. cbn [SyncModel.step] in H. unfold cbtick, get_thread in H.
   destruct (nth_error (thr s) t) as [th|] eqn:Hth; [|discriminate].
-  unfold susp_at at 2. unfold get_thread. rewrite Hth.
+  unfold SyncI.susp at 2. unfold get_thread. rewrite Hth.
   destruct th as [m cs ow]. cbn [main cbs own] in *.
   unfold ustep, wake, clear_own, getq, setq, get_thread in H.
   XP.brk3 H Hth.
   all: injection H as <-.
-  all: unfold susp_at, get_thread; cbn [thr set_mword set_festat set_thread set_thr mword mq cqs festat]; rewrite ?XP.upd_upd.
+  all: unfold SyncI.susp, get_thread; cbn [thr set_mword set_festat set_thread set_thr mword mq cqs festat]; rewrite ?XP.upd_upd.
   all: cb_fin t Hth.
   all: try (erewrite XP.nth_error_upd_eq by (first [eassumption | eapply XP.nth_error_upd_eq; eassumption
                                                   | rewrite XP.nth_error_upd_neq by assumption; eassumption]);
             cbn [main set_main set_cbs set_own]; try (intros E; exact E); try (intros E; discriminate E)).
 Qed.
 
-(* ---------------------------------------------------------------------------------------- *)
-(** * The product invariant *)
 
-(** LINK: a thread suspended inside the Sync object (context saved by a blocking step, not yet
-    handed to a run queue by a push step) is live and occupies no place of the machine *)
-Definition Link (c : cstate) : Prop := forall x, susp_at (sy c) x = true -> parked (ma c) x = true.
-
-Record CInv (c : cstate) : Prop := {
-  ci_sync : XP.Inv (sy c);
-  ci_mach : MP.Inv (ma c);
-  ci_shape : Shape (ma c);
-  ci_link : Link c
-}.
-
-Lemma guard_cur m w t e : guard_ok m w t e = true ->
-  nth_error (cur m) w = Some (if is_cb_ev e then Cb t else Run t).
+(** a push step is enabled only if its target is suspended (the model's [wake] checks it) *)
+Lemma push_susp s t e s1 x : SyncModel.step s (t, e) = Some s1 -> SyncI.push s t e = Some x -> SyncI.susp s x = true.
 Proof.
-  unfold guard_ok. destruct (nth_error (cur m) w) as [[|u|u]|]; try discriminate;
-    intros H; apply andb_true_iff in H as [H1 H2]; apply Nat.eqb_eq in H1; subst u;
-    destruct (is_cb_ev e); try discriminate; reflexivity.
+  intros H Hp. unfold SyncI.push in Hp. destruct (get_thread s t) as [th|] eqn:Hth; [|discriminate].
+  assert (Hw : exists s0, wake s x = Some s0).
+  { destruct e as [o| |i|v]; try discriminate; cbn [SyncModel.step] in H.
+    - unfold tick in H. rewrite Hth in H. cbv zeta in H. destruct (main th) eqn:Em; try discriminate.
+      + destruct u; try discriminate. injection Hp as ->. cbn [ustep] in H.
+        destruct (wake s x) as [s0|]; [eauto|discriminate].
+      + injection Hp as ->. destruct (wake s x) as [s0|]; [eauto|discriminate].
+    - unfold cbtick in H. rewrite Hth in H. destruct (nth_error (cbs th) i) as [[q b|u]|]; try discriminate.
+      destruct u; try discriminate. injection Hp as ->. cbn [ustep] in H.
+      destruct (wake s x) as [s0|]; [eauto|discriminate]. }
+  destruct Hw as [s0 Hw]. destruct (wake_spec _ _ _ Hw) as (thx & k & Ex & Em & _).
+  unfold SyncI.susp, get_thread. rewrite Ex, Em. reflexivity.
 Qed.
 
-Lemma parked_live_fresh s x c : parked s x = true -> is_fresh s c = true -> c <> x.
-Proof.
-  intros Hp Hf ->. apply parked_spec in Hp as [Hl _]. rewrite (MP.is_fresh_not_live _ _ Hf) in Hl. discriminate.
-Qed.
+Lemma cb_susp' s t e s1 : SyncModel.step s (t, e) = Some s1 -> SyncI.is_cb e = true -> SyncI.susp s1 t = true -> SyncI.susp s t = true.
+Proof. destruct e as [o| |i|v]; try discriminate. intros H _. eapply cb_susp; eauto. Qed.
 
-Lemma cmach_inv c w m c' : CInv c -> cmach c w m = Some c' -> CInv c'.
+Lemma susp_init nt nc x : SyncI.susp (init_state nt nc) x = false.
 Proof.
-  intros [Is Im Sh Lk] H. unfold cmach in H. destruct (free_ok c w m) eqn:Hf; [|discriminate].
-  destruct (mmove (ma c) w m) as [m1|] eqn:Hm; [|discriminate]. cbn [obind] in H. injection H as <-.
-  constructor; cbn [sy ma].
-  - exact Is.
-  - eapply MP.mmove_inv; eauto.
-  - eapply mmove_shape; eauto.
-  - intros x Hx. cbn [sy ma] in *. specialize (Lk x Hx). eapply mmove_parked; [exact Hm | exact Lk |].
-    unfold gains. unfold free_ok in Hf.
-    destruct m as [c0|c0| |v|j| | | |y| | ]; try discriminate.
-    + intros E. injection E as ->. unfold mmove in Hm.
-      destruct (nth_error (cur (ma c)) w) as [[|p|p]|]; try discriminate;
-      destruct (nth_error (hand (ma c)) w); try discriminate; destruct (nth_error (dq (ma c)) w); try discriminate.
-      destruct (is_fresh (ma c) x) eqn:Ef; [|discriminate]. exact (parked_live_fresh _ _ _ Lk Ef eq_refl).
-    + intros E. injection E as ->. unfold mmove in Hm.
-      destruct (nth_error (cur (ma c)) w) as [[|p|p]|]; try discriminate;
-      destruct (nth_error (hand (ma c)) w); try discriminate; destruct (nth_error (dq (ma c)) w); try discriminate.
-      destruct (is_fresh (ma c) x) eqn:Ef; [|discriminate]. exact (parked_live_fresh _ _ _ Lk Ef eq_refl).
-    + intros E. injection E as ->. rewrite Hx in Hf. discriminate.
-    + destruct (nth_error (cur (ma c)) w) as [[|p|p]|]; try discriminate.
-      intros E. injection E as ->. rewrite Hx in Hf. discriminate.
-    + intros E. injection E as ->. rewrite Hx in Hf. discriminate.
-Qed.
-
-Lemma csync_inv c w t e c' : CInv c -> csync c w t e = Some c' -> CInv c'.
-Proof.
-  intros [Is Im Sh Lk] H. unfold csync in H.
-  destruct (guard_ok (ma c) w t e) eqn:Hg; [|discriminate].
-  pose proof (guard_cur _ _ _ _ Hg) as Ec.
-  destruct (SyncModel.step (sy c) (t, e)) as [s1|] eqn:Hst; [|discriminate]. cbn [obind] in H.
-  pose proof (XP.inv_step _ _ _ Is Hst) as Is1.
-  (* the optional push *)
-  assert (exists m1, (match push_target (sy c) t e with Some x => mmove (ma c) w (PushTop x) | None => Some (ma c) end) = Some m1)
-    as [m1 Hm1] by (destruct (match push_target (sy c) t e with Some x => mmove (ma c) w (PushTop x) | None => Some (ma c) end); [eauto|discriminate]).
-  rewrite Hm1 in H. cbn [obind] in H.
-  assert (Im1 : MP.Inv m1 /\ Shape m1 /\ cur m1 = cur (ma c) /\
-                forall x, susp_at s1 x = true -> x <> t \/ is_cb_ev e = true -> parked m1 x = true).
-  { assert (Hold : forall x, susp_at s1 x = true -> x <> t \/ is_cb_ev e = true -> susp_at (sy c) x = true).
-    { intros x Hx [Hne|Hcb]; [eapply susp_frame; eauto|].
-      destruct (Nat.eq_dec x t) as [->|Hne]; [|eapply susp_frame; eauto].
-      destruct e; try discriminate. eapply cb_susp; eauto. }
-    destruct (push_target (sy c) t e) as [y|] eqn:Hp.
-    - split; [|split; [|split]].
-      + eapply MP.mmove_inv; eauto.
-      + eapply mmove_shape; eauto.
-      + eapply mmove_cur_same; [exact Hm1|exact Logic.I].
-      + intros x Hx Hc. eapply mmove_parked; [exact Hm1 | apply Lk; eapply Hold; eauto |].
-        cbn [gains]. intros E. injection E as ->. rewrite (push_wakes _ _ _ _ _ Hst Hp) in Hx. discriminate.
-    - injection Hm1 as <-. split; [exact Im|split; [exact Sh|split; [reflexivity|]]].
-      intros x Hx Hc. apply Lk. eapply Hold; eauto. }
-  destruct Im1 as (Im1 & Sh1 & Ec1 & Lk1).
-  destruct (is_cb_ev e) eqn:Hcb.
-  - (* callback context *)
-    destruct (Nat.ltb (ncbs s1 t) (ncbs (sy c) t)).
-    + destruct (mmove m1 w EndCb) as [m2|] eqn:Hm2; [|discriminate]. cbn [obind] in H. injection H as <-.
-      constructor; cbn [sy ma]; auto.
-      * eapply MP.mmove_inv; eauto.
-      * eapply mmove_shape; eauto.
-      * intros x Hx. cbn [sy ma] in *. eapply mmove_parked; [exact Hm2 | apply Lk1; auto | cbn; discriminate].
-    + injection H as <-. constructor; cbn [sy ma]; auto. intros x Hx. cbn [sy ma] in *. apply Lk1; auto.
-  - (* own context *)
-    destruct (susp_at s1 t) eqn:Hsus.
-    + destruct (autopop m1 w) as [m2|] eqn:Hm2; [|discriminate]. cbn [obind] in H.
-      destruct (mmove m2 w SaveCtx) as [m3|] eqn:Hm3; [|discriminate]. cbn [obind] in H. injection H as <-.
-      assert (Im2 : MP.Inv m2 /\ Shape m2 /\ cur m2 = cur m1 /\ forall x, parked m1 x = true -> parked m2 x = true).
-      { destruct (autopop_spec _ _ _ Hm2) as [->|Hpop]; [split; [exact Im1|split; [exact Sh1|split; [reflexivity|auto]]]|].
-        split; [|split; [|split]].
-        - eapply MP.mmove_inv; eauto.
-        - eapply mmove_shape; eauto.
-        - eapply mmove_cur_same; [exact Hpop|exact Logic.I].
-        - intros x Hx. eapply mmove_parked; [exact Hpop | exact Hx | cbn; discriminate]. }
-      destruct Im2 as (Im2 & Sh2 & Ec2 & Pk2).
-      assert (Ect : nth_error (cur m2) w = Some (Run t)) by (rewrite Ec2, Ec1; exact Ec).
-      destruct (save_parks m2 w t Im2 Sh2 Ect) as (m3' & Hs & Hpk & _). rewrite Hs in Hm3. injection Hm3 as ->.
-      constructor; cbn [sy ma]; auto.
-      * eapply MP.mmove_inv; eauto.
-      * eapply mmove_shape; eauto.
-      * intros x Hx. cbn [sy ma] in *. destruct (Nat.eq_dec x t) as [->|Hne]; [exact Hpk|].
-        eapply mmove_parked; [exact Hs | apply Pk2; apply Lk1; auto | cbn; discriminate].
-    + injection H as <-. constructor; cbn [sy ma]; auto. intros x Hx. cbn [sy ma] in *.
-      apply Lk1; [exact Hx|]. left. intros ->. rewrite Hsus in Hx. discriminate.
-Qed.
-
-Theorem cstep_inv c a c' : CInv c -> cstep c a = Some c' -> CInv c'.
-Proof. destruct a as [w t e|w m]; cbn [cstep]; [apply csync_inv | apply cmach_inv]. Qed.
-
-Lemma shape_minit nw nt : Shape (minit nw nt).
-Proof.
-  unfold Shape, minit; cbn [cur hand dq]. destruct nw as [|k]; cbn [length]; rewrite ?repeat_length; auto.
-Qed.
-
-Lemma susp_at_init nt nc x : susp_at (init_state nt nc) x = false.
-Proof.
-  unfold susp_at, get_thread, init_state; cbn [thr].
+  unfold SyncI.susp, get_thread, init_state; cbn [thr].
   destruct (nth_error (repeat thread0 nt) x) as [th|] eqn:E; [|reflexivity].
   apply XP.nth_error_repeat in E. subst th. reflexivity.
 Qed.
 
-Lemma cinv_init nw nt nc : 1 <= nt -> CInv (cinit nw nt nc).
-Proof.
-  intros Hnt. constructor; cbn [cinit sy ma].
-  - apply XP.inv_init. exists nt, nc. reflexivity.
-  - apply MP.minit_inv. exact Hnt.
-  - apply shape_minit.
-  - intros x Hx. cbn [cinit sy] in Hx. rewrite susp_at_init in Hx. discriminate.
-Qed.
+(* ---------------------------------------------------------------------------------------- *)
+(** * The product theorems for the Sync instance *)
 
-Definition cinit_pred (nw nt nc : nat) (c : cstate) : Prop := c = cinit nw nt nc.
-Definition creach (nw nt nc : nat) : cstate -> Prop := reachable (cinit_pred nw nt nc) cstep.
+Definition creach (nw nt nc : nat) : cstate -> Prop :=
+  greach state ev SyncModel.step SyncI.is_cb SyncI.susp SyncI.push ncbs (init_state nt nc) nw nt.
+
+Definition CInv (c : cstate) : Prop := XP.Inv (sy c) /\ GInv state SyncI.susp c.
+
+Lemma creach_sync nw nt nc c : creach nw nt nc c -> XP.reach (sy c) /\ reachable (MachineProofs.minit_pred nw nt) mstep (ma c).
+Proof.
+  intros R. destruct (greach_proj _ _ _ _ _ _ _ _ _ _ _ R) as [Rs Rm]. split; [|exact Rm].
+  clear Rm R. induction Rs as [s H0|s a s' Rs IH Hst].
+  - apply reach_init. exists nt, nc. exact H0.
+  - eapply reach_step; eauto.
+Qed.
 
 Theorem cinv_reach nw nt nc c : 1 <= nt -> creach nw nt nc c -> CInv c.
 Proof.
-  intros Hnt. apply invariant_rule.
-  - intros s ->. apply cinv_init. exact Hnt.
-  - intros s a s'. apply cstep_inv.
+  intros Hnt R. split.
+  - apply XP.inv_reach. apply (creach_sync _ _ _ _ R).
+  - eapply (ginv_reach state ev SyncModel.step SyncI.is_cb SyncI.susp SyncI.push ncbs
+              susp_frame cb_susp' push_wakes (init_state nt nc) (susp_init nt nc)); eauto.
 Qed.
 
-(* ---------------------------------------------------------------------------------------- *)
-(** * Projections: a product step is a Sync step (or none) and a short sequence of machine moves *)
-
-Fixpoint mmoves (m : mstate) (l : list (nat * move)) : option mstate :=
-  match l with
-  | [] => Some m
-  | a :: r => match mstep m a with Some m' => mmoves m' r | None => None end
-  end.
-
-Lemma mmoves_app m l1 l2 m1 : mmoves m l1 = Some m1 -> mmoves m (l1 ++ l2) = mmoves m1 l2.
+Theorem cstep_inv c a c' : CInv c -> cstep c a = Some c' -> CInv c'.
 Proof.
-  revert m; induction l1 as [|a r IH]; intros m H; cbn [mmoves app] in *.
-  - injection H as ->. reflexivity.
-  - destruct (mstep m a) as [m'|]; [apply IH; exact H|discriminate].
+  intros [Is Ig] H. split.
+  - destruct (gstep_proj_proto _ _ _ _ _ _ _ _ _ _ H) as [->|(t & e & Hs)]; [exact Is|]. eapply XP.inv_step; eauto.
+  - eapply (gstep_inv state ev SyncModel.step SyncI.is_cb SyncI.susp SyncI.push ncbs susp_frame cb_susp' push_wakes); eauto.
 Qed.
 
-Lemma cstep_proj_sync c a c' : cstep c a = Some c' ->
-  sy c' = sy c \/ exists t e, SyncModel.step (sy c) (t, e) = Some (sy c').
-Proof.
-  destruct a as [w t e|w m]; cbn [cstep].
-  - unfold csync. destruct (guard_ok (ma c) w t e); [|discriminate].
-    destruct (SyncModel.step (sy c) (t, e)) as [s1|] eqn:Hst; [|discriminate]. cbn [obind].
-    intros H. right. exists t, e. rewrite Hst. f_equal.
-    destruct (match push_target (sy c) t e with Some x => mmove (ma c) w (PushTop x) | None => Some (ma c) end) as [m1|];
-      [|discriminate]. cbn [obind] in H.
-    destruct (is_cb_ev e).
-    + destruct (Nat.ltb (ncbs s1 t) (ncbs (sy c) t)).
-      * destruct (mmove m1 w EndCb); [|discriminate]. injection H as <-. reflexivity.
-      * injection H as <-. reflexivity.
-    + destruct (susp_at s1 t).
-      * destruct (autopop m1 w) as [m2|]; [|discriminate]. cbn [obind] in H.
-        destruct (mmove m2 w SaveCtx); [|discriminate]. injection H as <-. reflexivity.
-      * injection H as <-. reflexivity.
-  - unfold cmach. destruct (free_ok c w m); [|discriminate].
-    destruct (mmove (ma c) w m); [|discriminate]. intros H. injection H as <-. left. reflexivity.
-Qed.
-
-Lemma cstep_proj_mach c a c' : cstep c a = Some c' ->
-  exists l, mmoves (ma c) l = Some (ma c') /\ length l <= 3.
-Proof.
-  destruct a as [w t e|w m]; cbn [cstep].
-  - unfold csync. destruct (guard_ok (ma c) w t e); [|discriminate].
-    destruct (SyncModel.step (sy c) (t, e)) as [s1|]; [|discriminate]. cbn [obind].
-    assert (Hpush : forall m1, (match push_target (sy c) t e with Some x => mmove (ma c) w (PushTop x) | None => Some (ma c) end) = Some m1 ->
-                    exists l, mmoves (ma c) l = Some m1 /\ length l <= 1).
-    { intros m1 H. destruct (push_target (sy c) t e) as [x|].
-      - exists [(w, PushTop x)]. cbn [mmoves]; unfold mstep; cbn [fst snd]. rewrite H. split; [reflexivity|cbn; lia].
-      - injection H as <-. exists []. split; [reflexivity|cbn; lia]. }
-    destruct (match push_target (sy c) t e with Some x => mmove (ma c) w (PushTop x) | None => Some (ma c) end) as [m1|] eqn:Hm1;
-      [|discriminate]. cbn [obind].
-    destruct (Hpush m1 eq_refl) as (l1 & Hl1 & Len1).
-    destruct (is_cb_ev e).
-    + destruct (Nat.ltb (ncbs s1 t) (ncbs (sy c) t)).
-      * destruct (mmove m1 w EndCb) as [m2|] eqn:Hm2; [|discriminate]. intros H. injection H as <-. cbn [ma].
-        exists (l1 ++ [(w, EndCb)]). rewrite (mmoves_app _ _ _ _ Hl1). cbn [mmoves]; unfold mstep; cbn [fst snd]. rewrite Hm2.
-        split; [reflexivity|]. rewrite app_length. cbn. lia.
-      * intros H. injection H as <-. exists l1. split; [exact Hl1|lia].
-    + destruct (susp_at s1 t).
-      * destruct (autopop m1 w) as [m2|] eqn:Hm2; [|discriminate]. cbn [obind].
-        destruct (mmove m2 w SaveCtx) as [m3|] eqn:Hm3; [|discriminate]. intros H. injection H as <-. cbn [ma].
-        destruct (autopop_spec _ _ _ Hm2) as [->|Hpop].
-        -- exists (l1 ++ [(w, SaveCtx)]). rewrite (mmoves_app _ _ _ _ Hl1). cbn [mmoves]; unfold mstep; cbn [fst snd]. rewrite Hm3.
-           split; [reflexivity|]. rewrite app_length. cbn. lia.
-        -- exists (l1 ++ [(w, PopOwn); (w, SaveCtx)]). rewrite (mmoves_app _ _ _ _ Hl1). cbn [mmoves]; unfold mstep; cbn [fst snd].
-           rewrite Hpop, Hm3. split; [reflexivity|]. rewrite app_length. cbn. lia.
-      * intros H. injection H as <-. exists l1. split; [exact Hl1|lia].
-  - unfold cmach. destruct (free_ok c w m); [|discriminate].
-    destruct (mmove (ma c) w m) as [m1|] eqn:Hm; [|discriminate]. intros H. injection H as <-. cbn [ma].
-    exists [(w, m)]. cbn [mmoves]; unfold mstep; cbn [fst snd]. rewrite Hm. split; [reflexivity|cbn; lia].
-Qed.
-
-Lemma mmoves_reachable nw nt m l m' :
-  reachable (MP.minit_pred nw nt) mstep m -> mmoves m l = Some m' -> reachable (MP.minit_pred nw nt) mstep m'.
-Proof.
-  revert m; induction l as [|a r IH]; intros m R H; cbn [mmoves] in H.
-  - injection H as <-. exact R.
-  - destruct (mstep m a) as [m1|] eqn:E; [|discriminate]. apply (IH m1); [|exact H]. eapply reach_step; eauto.
-Qed.
-
-(** every reachable product state projects to reachable states of both components *)
-Theorem creach_proj nw nt nc c : creach nw nt nc c ->
-  XP.reach (sy c) /\ reachable (MP.minit_pred nw nt) mstep (ma c).
-Proof.
-  intros R. induction R as [c H0 | c a c' R IH Hst].
-  - rewrite H0. split; apply reach_init; [exists nt, nc; reflexivity | reflexivity].
-  - destruct IH as [IHs IHm]. split.
-    + destruct (cstep_proj_sync _ _ _ Hst) as [->|(t & e & Hs)]; [exact IHs|]. eapply reach_step; eauto.
-    + destruct (cstep_proj_mach _ _ _ Hst) as (l & Hl & _). eapply mmoves_reachable; eauto.
-Qed.
-
-(* ---------------------------------------------------------------------------------------- *)
-(** * Consequences *)
-
-Lemma sync_parked_susp s x : XP.parked s x -> susp_at s x = true.
-Proof. intros (th & k & H1 & H2 & _). unfold susp_at. rewrite H1, H2. reflexivity. Qed.
+Lemma sync_parked_susp s x : XP.parked s x -> SyncI.susp s x = true.
+Proof. intros (th & k & H1 & H2 & _). unfold SyncI.susp. rewrite H1, H2. reflexivity. Qed.
 
 (** (2) blocked threads - in the mutex queue, in a condition queue, in a waker's hand - occupy
     no worker, no run queue, no hand *)
@@ -599,17 +182,17 @@ Theorem blocked_frees_worker nw nt nc c x : 1 <= nt -> creach nw nt nc c ->
   forall w, nth_error (cur (ma c)) w <> Some (Run x) /\ nth_error (hand (ma c)) w <> Some (Some x) /\
             (forall q, nth_error (dq (ma c)) w = Some q -> ~ In x q).
 Proof.
-  intros Hnt R Hb. pose proof (cinv_reach _ _ _ _ Hnt R) as CI. destruct (creach_proj _ _ _ _ R) as [Rs _].
+  intros Hnt R Hb. destruct (creach_sync _ _ _ _ R) as [Rs _].
   assert (Hp : XP.parked (sy c) x).
   { destruct (XP.queue_wf _ Rs) as (_ & _ & _ & _ & Hq & Hc).
     destruct Hb as [H|[[q H]|(t & th & Hth & Hh)]]; [apply Hq; exact H | eapply Hc; exact H |].
     apply (XP.hand_parked _ t th x Rs Hth Hh). }
-  pose proof (ci_link c CI x (sync_parked_susp _ _ Hp)) as Hpk. apply parked_spec in Hpk as [Hl H0].
-  split; [exact Hl|]. split; [exact H0|]. apply no_place_nowhere. exact H0.
+  eapply (blocked_frees_worker state ev SyncModel.step SyncI.is_cb SyncI.susp SyncI.push ncbs
+            susp_frame cb_susp' push_wakes (init_state nt nc) (susp_init nt nc)); eauto.
+  apply sync_parked_susp; exact Hp.
 Qed.
 
-(** (3) a thread executes a Sync step of its own context only while it is the current thread of
-    exactly one worker (and in no hand, in no run queue) *)
+(** (3) *)
 Theorem sync_step_on_unique_worker nw nt nc c w t e c' : 1 <= nt -> creach nw nt nc c ->
   cstep c (CSync w t e) = Some c' -> is_cb_ev e = false ->
   nth_error (cur (ma c)) w = Some (Run t) /\ places (ma c) t = 1 /\
@@ -618,21 +201,17 @@ Theorem sync_step_on_unique_worker nw nt nc c w t e c' : 1 <= nt -> creach nw nt
   (forall w' q, nth_error (dq (ma c)) w' = Some q -> ~ In t q) /\
   susp_at (sy c) t = false.
 Proof.
-  intros Hnt R H Hcb. pose proof (cinv_reach _ _ _ _ Hnt R) as CI.
-  cbn [cstep] in H. unfold csync in H. destruct (guard_ok (ma c) w t e) eqn:Hg; [|discriminate].
-  pose proof (guard_cur _ _ _ _ Hg) as Ec. rewrite Hcb in Ec.
-  destruct (current_unique _ _ _ (ci_mach c CI) Ec) as (Hl & Hp & Hu & Hh & Hq).
-  repeat split; auto.
-  destruct (susp_at (sy c) t) eqn:E; [|reflexivity].
-  pose proof (ci_link c CI t E) as Hpk. apply parked_spec in Hpk as [_ H0]. lia.
+  intros Hnt R H Hcb.
+  eapply (own_step_on_unique_worker state ev SyncModel.step SyncI.is_cb SyncI.susp SyncI.push ncbs
+            susp_frame cb_susp' push_wakes (init_state nt nc) (susp_init nt nc)); eauto.
 Qed.
 
-(** (4) at a Sync push step the machine's PushTop is enabled: the woken thread is parked, so the
-    wake-up inserts it exactly once *)
+(** (4): in the Sync model the push step itself is always enabled (MutexProofs: wake never fails),
+    so no enabledness hypothesis is needed *)
 Lemma push_target_in_hand s t e x : push_target s t e = Some x ->
   exists th, get_thread s t = Some th /\ XP.in_hand th x.
 Proof.
-  unfold push_target. destruct (get_thread s t) as [th|] eqn:Hth; [|discriminate].
+  unfold SyncI.push. destruct (get_thread s t) as [th|] eqn:Hth; [|discriminate].
   intros H. exists th. split; [reflexivity|]. destruct e as [o| |i|v]; try discriminate.
   - destruct (main th) eqn:Em; try discriminate.
     + destruct u; try discriminate. injection H as ->. right; left. eexists. left. exact Em.
@@ -641,51 +220,38 @@ Proof.
     destruct u; try discriminate. injection H as ->. right; left. eexists. right. eapply nth_error_In; eauto.
 Qed.
 
+Lemma push_step_enabled s t e x : XP.reach s -> push_target s t e = Some x -> exists s1, SyncModel.step s (t, e) = Some s1.
+Proof.
+  intros R Hp. unfold SyncI.push in Hp. destruct (get_thread s t) as [th|] eqn:Hth; [|discriminate].
+  destruct e as [o| |i|v]; try discriminate; cbn [SyncModel.step].
+  - destruct (main th) eqn:Em; try discriminate.
+    + destruct u; try discriminate. injection Hp as ->.
+      destruct (tick s t) as [s1|] eqn:E; [eauto|]. exfalso.
+      eapply (XP.tick_enabled_hand s t th _ x R Hth Em); [right; eauto|exact E].
+    + injection Hp as ->. destruct (tick s t) as [s1|] eqn:E; [eauto|]. exfalso.
+      eapply (XP.tick_enabled_sigpush s t th _ _ x R Hth Em); exact E.
+  - destruct (nth_error (cbs th) i) as [[q b|u]|] eqn:Ei; try discriminate.
+    destruct u; try discriminate. injection Hp as ->.
+    destruct (cbtick s t i) as [s1|] eqn:E; [eauto|]. exfalso.
+    eapply (XP.cbtick_enabled_hand s t th i _ x R Hth Ei); [right; eauto|exact E].
+Qed.
+
 Theorem wake_inserts_once nw nt nc c w t e x : 1 <= nt -> creach nw nt nc c ->
-  guard_ok (ma c) w t e = true -> push_target (sy c) t e = Some x ->
+  cguard (ma c) w t e = true -> push_target (sy c) t e = Some x ->
   exists m1, mmove (ma c) w (PushTop x) = Some m1 /\ places (ma c) x = 0 /\ places m1 x = 1 /\
              is_live (ma c) x = true.
 Proof.
-  intros Hnt R Hg Hp. pose proof (cinv_reach _ _ _ _ Hnt R) as CI. destruct (creach_proj _ _ _ _ R) as [Rs _].
-  destruct (push_target_in_hand _ _ _ _ Hp) as (th & Hth & Hh).
-  destruct (XP.hand_parked _ t th x Rs Hth Hh) as (Hpk & _).
-  pose proof (ci_link c CI x (sync_parked_susp _ _ Hpk)) as Hpm.
-  pose proof (guard_cur _ _ _ _ Hg) as Ec.
-  destruct (shape_lookup _ _ _ (ci_shape c CI) Ec) as (hw & qw & Eh & Eq).
-  exists (set_dq (ma c) w (qw ++ [x])). apply parked_spec in Hpm as [Hl H0]. repeat split; auto.
-  - unfold mmove. rewrite Ec, Eh, Eq. assert (Hpk2 : parked (ma c) x = true) by (apply parked_spec; auto).
-    rewrite Hpk2. reflexivity.
-  - pose proof (MP.sumf_upd (w_q x) (dq (ma c)) w (qw ++ [x]) qw Eq) as Hq.
-    rewrite MP.w_q_app, MP.w_q_single, Nat.eqb_refl in Hq. cbn [b2n] in Hq. occs. lia.
+  intros Hnt R Hg Hp. destruct (creach_sync _ _ _ _ R) as [Rs _].
+  destruct (push_step_enabled _ _ _ _ Rs Hp) as [s1 Hst].
+  eapply (wake_inserts_once state ev SyncModel.step SyncI.is_cb SyncI.susp SyncI.push ncbs
+            susp_frame cb_susp' push_wakes push_susp (init_state nt nc) (susp_init nt nc)); eauto.
 Qed.
 
-(** the composition never blocks a Sync step whose worker condition holds: every machine move a
-    synchronised step carries is enabled *)
 Theorem csync_never_stuck nw nt nc c w t e s1 : 1 <= nt -> creach nw nt nc c ->
-  guard_ok (ma c) w t e = true -> SyncModel.step (sy c) (t, e) = Some s1 ->
+  cguard (ma c) w t e = true -> SyncModel.step (sy c) (t, e) = Some s1 ->
   exists c', cstep c (CSync w t e) = Some c' /\ sy c' = s1.
 Proof.
-  intros Hnt R Hg Hst. pose proof (cinv_reach _ _ _ _ Hnt R) as CI.
-  pose proof (guard_cur _ _ _ _ Hg) as Ec.
-  cbn [cstep]. unfold csync. rewrite Hg, Hst. cbn [obind].
-  assert (exists m1, (match push_target (sy c) t e with Some x => mmove (ma c) w (PushTop x) | None => Some (ma c) end) = Some m1 /\
-                     cur m1 = cur (ma c) /\ MP.Inv m1 /\ Shape m1) as (m1 & Hm1 & Ec1 & Im1 & Sh1).
-  { destruct (push_target (sy c) t e) as [x|] eqn:Hp.
-    - destruct (wake_inserts_once _ _ _ _ _ _ _ _ Hnt R Hg Hp) as (m1 & Hm & _). exists m1.
-      split; [exact Hm|]. split; [eapply mmove_cur_same; [exact Hm|exact Logic.I]|].
-      split; [eapply MP.mmove_inv; [apply (ci_mach c CI)|exact Hm] | eapply mmove_shape; [exact Hm|apply (ci_shape c CI)]].
-    - exists (ma c). split; [reflexivity|]. split; [reflexivity|]. split; [apply (ci_mach c CI)|apply (ci_shape c CI)]. }
-  rewrite Hm1. cbn [obind]. rewrite <- Ec1 in Ec.
-  destruct (is_cb_ev e).
-  - destruct (Nat.ltb (ncbs s1 t) (ncbs (sy c) t)); [|eexists; split; reflexivity].
-    destruct (shape_lookup _ _ _ Sh1 Ec) as (hw & qw & Eh & Eq).
-    unfold mmove. rewrite Ec, Eh, Eq. destruct hw; cbn [obind]; eexists; split; reflexivity.
-  - destruct (susp_at s1 t); [|eexists; split; reflexivity].
-    destruct (autopop_enabled _ _ _ Ec) as [m2 Hm2]. rewrite Hm2. cbn [obind].
-    assert (Im2 : MP.Inv m2 /\ Shape m2 /\ cur m2 = cur m1).
-    { destruct (autopop_spec _ _ _ Hm2) as [->|Hpop]; [auto|].
-      split; [eapply MP.mmove_inv; eauto|]. split; [eapply mmove_shape; eauto|].
-      eapply mmove_cur_same; [exact Hpop|exact Logic.I]. }
-    destruct Im2 as (Im2 & Sh2 & Ec2). rewrite <- Ec2 in Ec.
-    destruct (save_parks _ _ _ Im2 Sh2 Ec) as (m3 & Hs & _). rewrite Hs. cbn [obind]. eexists; split; reflexivity.
+  intros Hnt R Hg Hst.
+  eapply (gsync_never_stuck state ev SyncModel.step SyncI.is_cb SyncI.susp SyncI.push ncbs
+            susp_frame cb_susp' push_wakes push_susp (init_state nt nc) (susp_init nt nc)); eauto.
 Qed.
